@@ -1,0 +1,8 @@
+//go:build verif
+
+// Contracts for package push (comment-only; read by /verif/govc).
+
+package push
+
+//@ func (*socket).GetOption
+//@   ensures name == protocol.OptionRaw ==> isnil(result1) && result0 == iface(false)
